@@ -16,6 +16,8 @@
 //!   WCLR                    empty the WAL dir
 //!   C=<k>                   WalCleaner::{new(0) | with_wal_dir(0, xdir)}.cleanup_up_to(k)
 //!   L=<id>                  WalArchiver::new(0).archive_log(id)          (wal_archive_manager archive)
+//!   F=0 | F=-               from here on run C / L with RLIMIT_FSIZE = 0 (every write to a regular file fails with
+//!                           EFBIG after File::create succeeded: the "late" I/O failure) / restore the limit
 //!   REC                     WalArchiveRecovery::new(0, archive dir).recover_all()   (… recover)
 //! Output: observations of C (WAL listing after the cleanup) / L / REC in order, then the final listing of both directories with every
 //! archive decoded by WalArchive::read_from_file.
@@ -33,6 +35,33 @@ use std::path::{Path, PathBuf};
 use std::sync::OnceLock;
 
 static BASE: OnceLock<PathBuf> = OnceLock::new();
+
+// setrlimit(RLIMIT_FSIZE) without a libc dependency (Linux x86_64/aarch64 ABI)
+#[repr(C)]
+struct RLimit { cur: u64, max: u64 }
+unsafe extern "C" {
+    fn getrlimit(resource: i32, rlim: *mut RLimit) -> i32;
+    fn setrlimit(resource: i32, rlim: *const RLimit) -> i32;
+    fn signal(signum: i32, handler: usize) -> usize;
+}
+const RLIMIT_FSIZE: i32 = 1;
+const SIGXFSZ: i32 = 25;
+const SIG_IGN: usize = 1;
+
+/// Runs `f` with the soft file-size limit set to 0 when `starve` (writes fail with EFBIG), restoring it afterwards.
+fn with_fsize_limit<T>(starve: bool, f: impl FnOnce() -> T) -> T {
+    if !starve { return f(); }
+    unsafe {
+        signal(SIGXFSZ, SIG_IGN);
+        let mut old = RLimit { cur: 0, max: 0 };
+        assert_eq!(getrlimit(RLIMIT_FSIZE, &mut old), 0);
+        let new = RLimit { cur: 0, max: old.max };
+        assert_eq!(setrlimit(RLIMIT_FSIZE, &new), 0);
+        let r = std::panic::catch_unwind(std::panic::AssertUnwindSafe(f));
+        assert_eq!(setrlimit(RLIMIT_FSIZE, &old), 0);
+        match r { Ok(v) => v, Err(e) => std::panic::resume_unwind(e) }
+    }
+}
 
 fn base() -> &'static PathBuf {
     BASE.get_or_init(|| {
@@ -176,6 +205,7 @@ fn run_case(t: &[String]) -> String {
     fs::create_dir_all(&xwal).unwrap();
     fs::create_dir_all(b.join("arch")).unwrap();
     let mut use_x = false;
+    let mut starve = false;
     let mut obs: Vec<String> = Vec::new();
     for c in &t[2..] {
         if c == "XD" { use_x = true; continue; }
@@ -188,6 +218,7 @@ fn run_case(t: &[String]) -> String {
         let (k, v) = c.split_once('=').expect("cmd");
         match k {
             "AR" => wipe(&arch.join(osname(v))),
+            "F" => starve = v == "0",
             "R" => {
                 wipe(&arch);
                 match v { "m" => {}, "f" => fs::write(&arch, b"not a directory").unwrap(), _ => fs::create_dir_all(&arch).unwrap() }
@@ -213,11 +244,11 @@ fn run_case(t: &[String]) -> String {
             "C" => {
                 let keep: u64 = v.parse().unwrap();
                 let cleaner = if use_x { WalCleaner::with_wal_dir(0, xwal.clone()) } else { WalCleaner::new(0) };
-                cleaner.cleanup_up_to(keep);
+                with_fsize_limit(starve, || cleaner.cleanup_up_to(keep));
                 obs.push(if use_x { format!("C:{}/{}", listing_w(&wal), listing_w(&xwal)) } else { format!("C:{}", listing_w(&wal)) });
             }
             "L" => {
-                let r = WalArchiver::new(0).archive_log(v.parse().unwrap());
+                let r = with_fsize_limit(starve, || WalArchiver::new(0).archive_log(v.parse().unwrap()));
                 obs.push(match r {
                     Ok(p) => format!("L:ok:{}", hexs(p.file_name().unwrap().as_bytes())),
                     Err(_) => "L:err".into(),
